@@ -27,13 +27,19 @@ GetEv == /\ Ev.t = "get" /\ UNCHANGED seq
             THEN Fail("get answered " \o Ev.ret \o " with " \o ToString(Ev.obtained) \o " copies obtainable, RQ=" \o ToString(Ev.RQ))
             ELSE IF Ev.ret = "val" /\ ~Ev.newest THEN Fail("get returned a value that is not a newest copy")
             ELSE Ok
+\* the primary owner is unreachable: the read may fail in any way, but it returns a value only if ReadQuorum copies are within reach
+GetXEv == /\ Ev.t = "getx" /\ UNCHANGED seq
+          /\ IF Ev.ret = "val" /\ Ev.obtained < Ev.RQ
+             THEN Fail("get answered with a value although only " \o ToString(Ev.obtained) \o " copies are within reach (the primary owner is not), RQ=" \o ToString(Ev.RQ))
+             ELSE IF Ev.ret = "val" /\ ~Ev.newest THEN Fail("get returned a value that is not a newest copy")
+             ELSE Ok
 McqEv == /\ Ev.t = "mcq" /\ UNCHANGED seq
          /\ IF AbsOperable(Ev.seen, Ev.MCQ)
             THEN IF Ev.ret = "clusterquorum" THEN Fail(Ev.cmd \o " refused although enough members are present") ELSE Ok
             ELSE IF Ev.ret # "clusterquorum" THEN Fail(Ev.cmd \o " answered " \o Ev.ret \o " below the member-count quorum")
                  ELSE IF Ev.applied THEN Fail(Ev.cmd \o " was applied below the member-count quorum")
                  ELSE Ok
-TNext == i <= Len(Trace) /\ i' = i + 1 /\ (Reset \/ PutEv \/ GetEv \/ McqEv)
+TNext == i <= Len(Trace) /\ i' = i + 1 /\ (Reset \/ PutEv \/ GetEv \/ GetXEv \/ McqEv)
       /\ UNCHANGED <<R, W, RQ, unreach, holds, localHolds, phase>>
 TSpec == TInit /\ R = 1 /\ W = 1 /\ RQ = 1 /\ unreach = {} /\ holds = {} /\ localHolds = FALSE /\ phase = "trace"
          /\ [][TNext]_<<tvars, vars>>
